@@ -466,7 +466,7 @@ func runC03(w *World, r *Report) {
 	}
 
 	// the pack is sorted by source time before it is re-timed (resetMsgPackTimestamp hands out new times by index)
-	r.importRules(runC01, "C03-", map[string]bool{"C01-R7": true})
+	r.importRules(runC01, "C03-", map[string]bool{"C01-R7": true, "C01-R1": true})
 	// position timestamps agree with the pack's only when the positions the handler re-times are its own copies
 	// (C02-R2); time does not go back across a resume only when every channel resumes from its own checkpoint (C05-R4)
 	r.importRules(runC02, "C03-", map[string]bool{"C02-R2": true})
